@@ -35,7 +35,7 @@ ASSUMPTIONS = [
   'the wrapped module itself (Linen apply / nnx.merge) is the reference: if it is wrong, wrapper and reference are wrong alike',
   'nothing is asserted about the wrapper Rngs after a call that raised (keys are drawn before the wrapped module runs)',
 ]
-PROBES = ['tonnx_runs', 'tolinen_runs', 'mutable_update_propagated', 'eval_call_no_update', 'roundtrip_split_merge', 'fault_in_wrapped', 'nested_in_nnx_parent', 'nested_in_linen_parent', 'partitioned_param_metadata', 'tolinen_sharding_metadata', 'tolinen_rng', 'convert_roundtrip', 'tolinen_falsy_metadata', 'user_metadata_set', 'custom_registered_type', 'name_reregistered', 'failed_lazy_init_of_parent', 'call_interleaved_with_bridge_apply']
+PROBES = ['tonnx_runs', 'tolinen_runs', 'mutable_update_propagated', 'eval_call_no_update', 'roundtrip_split_merge', 'fault_in_wrapped', 'nested_in_nnx_parent', 'nested_in_linen_parent', 'partitioned_param_metadata', 'tolinen_sharding_metadata', 'tolinen_rng', 'tolinen_rng_stored_stream', 'full_state_roundtrip', 'call_time_rngs', 'convert_roundtrip', 'tolinen_falsy_metadata', 'user_metadata_set', 'custom_registered_type', 'name_reregistered', 'failed_lazy_init_of_parent', 'call_interleaved_with_bridge_apply']
 
 
 def setup_worker(w, tier):
@@ -117,6 +117,9 @@ def generate(rs, tier):
       r = g.random()
       if r < 0.7:
         ops.append(dict(op='call', mutable=g.choice([None, None, ['stats', 'batch_stats', 'cache'], ['stats'], ['batch_stats', 'cache']]), fill=g.randrange(3)))
+        if g.random() < 0.2:
+          # this one call brings its own Rngs; the wrapper's own streams are not involved and continue afterwards
+          ops[-1]['call_rngs'] = g.randrange(100, 104)
       elif r < 0.8:
         ops.append(dict(op='roundtrip'))
       elif r < 0.88:
@@ -134,6 +137,12 @@ def generate(rs, tier):
     if custom and g.random() < 0.25:
       ops.append(dict(op='reregister'))
     ops.append(dict(op='apply', train=g.random() < 0.7, mutable=g.random() < 0.7, fill=g.randrange(3), seed=g.randrange(4)))
+    if g.random() < 0.45:
+      # mutable=True: every collection (the RNG stream state included) comes back; without rngs= the module runs off
+      # the stream state stored in the variables
+      ops[-1]['mut_all'] = True
+    if g.random() < 0.4:
+      ops[-1]['stored_rng'] = True
   return dict(engine='bridgeworld', knobs=dict(kind='tolinen', custom=custom, tag=g.getrandbits(40), use_rng=g.random() < 0.4, shard=g.choice([False, False, True, True, 'falsy']), nested=g.random() < 0.35, seed=g.randrange(5), batch=g.choice([1, 2])), ops=ops)
 
 
@@ -258,6 +267,7 @@ class ToNNXWorld:
         P.CTL.reset()
         self.rngs = self.w.rngs
     self.calls = 0
+    self.lent = []
 
   def check_types(self, where, what):
     parts = {}
@@ -293,6 +303,12 @@ class ToNNXWorld:
     kw = {}
     if op['mutable']:
       kw['mutable'] = list(op['mutable'])
+    if op.get('call_rngs') is not None:
+      own = nnx.Rngs(dropout=op['call_rngs'])
+      ref_rngs = nnx.clone(own)
+      kw['rngs'] = own
+      self.lent.append((own, 1))
+      res.probe('call_time_rngs')
     P.CTL.reset(fail_at=fault_at)
     try:
       y = self.top(x, **kw)
@@ -329,6 +345,9 @@ class ToNNXWorld:
     if not op['mutable']:
       res.probe('eval_call_no_update')
     self.check_types(where, f'op {oi}')
+    for own, n in self.lent:
+      if own is not kw.get('rngs') and int(own.dropout.count.value) != n:
+        raise Violation('callers-rngs-advanced', f'op {oi}: an Rngs object passed to one earlier call was advanced by a later call (count {int(own.dropout.count.value)}, it was used for {n} call)')
     self.calls += 1
     return n_events
 
@@ -482,10 +501,10 @@ class ToLinenWorld:
       self.log.add(oi, 'reregister')
       return
     x = P.make_input(k['batch'], op['fill'])
-    rngs = {'dropout': jax.random.key(op['seed'] + 20)}
+    stored = bool(op.get('stored_rng'))
+    mut_all = bool(op.get('mut_all'))
+    rngs = {} if stored else {'dropout': jax.random.key(op['seed'] + 20)}
     inner = self.inner(self.vars)
-    # reference: the NNX module rebuilt from graphdef + state, on the same state and the same keys
-    gdef = inner['nnx']['graphdef']
     w_val = np.asarray(val_of(inner['params']['w']))
     c_val = np.asarray(val_of(inner['batch_stats']['count']))
     want_count = c_val + (1.0 if op['train'] else 0.0)
@@ -493,10 +512,15 @@ class ToLinenWorld:
     if k['nested']:
       xin = x + np.asarray(self.vars['params']['b'])
     y_ref = xin + w_val + want_count
+    # reference: the NNX class instantiated by hand, given the state held in the Linen variables (values copied in one
+    # by one -- no bridge code involved), reseeded with the key ToLinen derives when rngs are passed, then called
+    ref = self.ref_module(inner, rngs)
     P.CTL.reset()
-    mut = ['batch_stats'] if op['mutable'] else False
+    y_twin = ref(jnp.asarray(xin), op['train'])
+    P.CTL.reset()
+    mut = True if mut_all else (['batch_stats'] if op['mutable'] else False)
     if k['use_rng']:
-      self.res.probe('tolinen_rng')
+      self.res.probe('tolinen_rng_stored_stream' if stored else 'tolinen_rng')
     del META_SEEN[:]
     out = self.lm.apply(self.vars, x, op['train'], rngs=rngs, mutable=mut)
     if mut:
@@ -512,8 +536,8 @@ class ToLinenWorld:
     if not k['use_rng']:
       if val(y) != val(y_ref.astype(np.float32)):
         raise Violation('output-differs-from-wrapped', f'op {oi} apply(train={op["train"]}, mutable={mut}): ToLinen returned {np.asarray(y).tolist()}, the NNX module on the same state returns {y_ref.tolist()}')
-    else:
-      # with RNG: rebuild the NNX module by hand and feed it the key ToLinen derives (model of make_rng at this path)
+    elif not stored:
+      # with RNG: feed the arithmetic model the key ToLinen derives (model of make_rng at this path)
       from sim.props.c09 import model_key
 
       path = ('wrapped',) if k['nested'] else ()
@@ -521,19 +545,81 @@ class ToLinenWorld:
       noise = np.asarray(jax.random.randint(jax.random.fold_in(key, 0), y_ref.shape, -3, 4)).astype(np.float32)
       if val(y) != val((y_ref + noise).astype(np.float32)):
         raise Violation('output-differs-from-wrapped', f'op {oi} apply(train={op["train"]}) with RNG: ToLinen output differs from the NNX module reseeded with the derived key')
+    if val(y) != val(np.asarray(y_twin)):
+      raise Violation('output-differs-from-wrapped', f'op {oi} apply(train={op["train"]}, mutable={mut}, rngs={"none (stored stream state)" if stored else "given"}): ToLinen returned {np.asarray(y).tolist()}, the NNX module with the same state returns {np.asarray(y_twin).tolist()}')
     if mut:
       got = self.inner(upd).get('batch_stats', {}).get('count')
       if got is None or float(np.asarray(val_of(got))) != float(want_count):
         raise Violation('state-differs-from-wrapped', f'op {oi}: updated batch_stats count is {None if got is None else float(np.asarray(val_of(got)))}, the NNX module leaves {float(want_count)}')
-      if 'params' in upd:
+      if 'params' in upd and not mut_all:
         raise Violation('state-differs-from-wrapped', f'op {oi}: apply(mutable=[batch_stats]) returned params as well')
+      if mut_all:
+        # every Variable of the NNX module comes back under the collection named after its type, with the value the
+        # module left in it (the RNG stream keys and counters are Variables like any other)
+        want = self.ref_state(ref)
+        got_all = self.inner(upd)
+        for (col, path_), wv in sorted(want.items()):
+          node = got_all.get(col, {})
+          for part in path_:
+            node = node.get(part, {}) if isinstance(node, dict) or hasattr(node, 'get') else {}
+          gv = val_of(node) if not isinstance(node, dict) else None
+          if gv is None:
+            raise Violation('collection-missing', f'op {oi}: apply(mutable=True) did not return {col}/{"/".join(path_)}: {sorted(got_all)}')
+          if raw_bytes(gv) != raw_bytes(wv):
+            raise Violation('state-differs-from-wrapped', f'op {oi} apply(mutable=True, rngs={"none" if stored else "given"}): {col}/{"/".join(path_)} comes back as {show(gv)}, the NNX module with the same state leaves {show(wv)}')
+        self.res.probe('full_state_roundtrip')
       self.vars = merge_vars(flax.core.unfreeze(self.vars), flax.core.unfreeze(upd))
       if op['train']:
         self.res.probe('mutable_update_propagated')
     else:
       self.res.probe('eval_call_no_update')
     self.calls += 1
-    self.log.add(oi, 'apply', op['train'], bool(mut))
+    self.log.add(oi, 'apply', op['train'], repr(mut), stored)
+
+  def ref_module(self, inner, rngs):
+    k = self.k
+    m = NMod(P.D, k['use_rng'], k['shard'], rngs=nnx.Rngs(params=0, dropout=1))
+    m.w.value = jnp.asarray(val_of(inner['params']['w']))
+    m.count.value = jnp.asarray(val_of(inner['batch_stats']['count']))
+    if k.get('custom') and 'ema' in vars(m):
+      for col, t in inner.items():
+        if col not in ('params', 'batch_stats', 'nnx', 'RngKey', 'RngCount') and 'ema' in t:
+          m.ema.value = jnp.asarray(val_of(t['ema']))
+    if k['use_rng']:
+      from sim.props.c09 import model_key
+
+      for name in ('params', 'dropout'):
+        st = getattr(m.rngs, name)
+        st.key.value = val_of(inner['RngKey']['rngs'][name]['key'])
+        st.count.value = jnp.asarray(val_of(inner['RngCount']['rngs'][name]['count']))
+        if name in rngs:
+          path = ('wrapped',) if k['nested'] else ()
+          key, _ = model_key(rngs[name], path + (1,), flax.config.flax_fix_rng_separator)
+          st.key.value = key
+          st.count.value = jnp.array(0, dtype=jnp.uint32)
+    return m
+
+  def ref_state(self, m):
+    out = {('params', ('w',)): m.w.value, ('batch_stats', ('count',)): m.count.value}
+    if self.k['use_rng']:
+      for name in ('params', 'dropout'):
+        st = getattr(m.rngs, name)
+        out[('RngKey', ('rngs', name, 'key'))] = st.key.value
+        out[('RngCount', ('rngs', name, 'count'))] = st.count.value
+    return out
+
+
+def raw_bytes(x):
+  if hasattr(x, 'dtype') and jax.dtypes.issubdtype(x.dtype, jax.dtypes.prng_key):
+    x = jax.random.key_data(x)
+  a = np.asarray(x)
+  return (str(a.dtype), a.shape, a.tobytes())
+
+
+def show(x):
+  if hasattr(x, 'dtype') and jax.dtypes.issubdtype(x.dtype, jax.dtypes.prng_key):
+    x = jax.random.key_data(x)
+  return np.asarray(x).tolist()
 
 
 def val_of(x):
